@@ -27,6 +27,7 @@ func RuleKAllPostings(c *core.Ctx) {
 		return
 	}
 	n := 0
+	postingWriters := map[*ssa.Function]bool{}
 	for _, fn := range p.SrcFuncs() {
 		if core.PkgPathOf(fn) != pkgBeancount {
 			continue
@@ -78,6 +79,9 @@ func RuleKAllPostings(c *core.Ctx) {
 			if len(writes) == 0 {
 				continue // e.g. the loop that looks for valuation accounts to open
 			}
+			for _, w := range writes {
+				postingWriters[w.Call.StaticCallee()] = true
+			}
 			n++
 			key := core.FuncName(fn) + ":every posting is written"
 			var bad []string
@@ -103,22 +107,55 @@ func RuleKAllPostings(c *core.Ctx) {
 			}
 		}
 	}
-	// the amount written on the valuation branch is Posting.Value
-	wp := p.Func(pkgBeancount, "writePosting")
-	if wp == nil {
-		c.Anchor(rule, "beancount.writePosting")
-	} else {
+	// the amount written on the valuation branch is Posting.Value: the function
+	// that is handed each posting, or a helper of the package it calls, reads it
+	{
+		var wp *ssa.Function
 		usesValue := false
-		core.EachInstr(wp, func(ins ssa.Instruction) {
-			if fa, ok := ins.(*ssa.FieldAddr); ok && core.FieldOf(fa) == valueF {
-				usesValue = true
+		seen := map[*ssa.Function]bool{}
+		var visit func(f *ssa.Function, depth int)
+		visit = func(f *ssa.Function, depth int) {
+			if f == nil || seen[f] || f.Blocks == nil || depth > 2 {
+				return
 			}
-		})
-		key := core.FuncName(wp) + ":writes Posting.Value"
-		if usesValue {
-			c.Ob(rule, key, wp.Pos(), core.FuncName(wp), core.Discharged, "the amount in the valuation commodity is the posting's Value (pairs carry exact negatives: C01)")
+			seen[f] = true
+			core.EachInstr(f, func(ins ssa.Instruction) {
+				switch x := ins.(type) {
+				case *ssa.FieldAddr:
+					if core.FieldOf(x) == valueF {
+						usesValue = true
+					}
+				case *ssa.Field:
+					if core.FieldOf(x) == valueF {
+						usesValue = true
+					}
+				case *ssa.Call:
+					if callee := x.Call.StaticCallee(); callee != nil && core.PkgPathOf(callee) == pkgBeancount {
+						visit(callee, depth+1)
+					}
+				}
+			})
+		}
+		var fns []*ssa.Function
+		for f := range postingWriters {
+			fns = append(fns, f)
+		}
+		sort.Slice(fns, func(i, j int) bool { return fns[i].String() < fns[j].String() })
+		for _, f := range fns {
+			if wp == nil {
+				wp = f
+			}
+			visit(f, 0)
+		}
+		if wp == nil {
+			c.Anchor(rule, "the function of lib/journal/beancount that is handed each posting")
 		} else {
-			c.Ob(rule, key, wp.Pos(), core.FuncName(wp), core.Violated, "the transcoder does not write Posting.Value")
+			key := core.FuncName(wp) + ":writes Posting.Value"
+			if usesValue {
+				c.Ob(rule, key, wp.Pos(), core.FuncName(wp), core.Discharged, "the amount in the valuation commodity is the posting's Value (pairs carry exact negatives: C01)")
+			} else {
+				c.Ob(rule, key, wp.Pos(), core.FuncName(wp), core.Violated, "the transcoder does not write Posting.Value")
+			}
 		}
 	}
 	if n == 0 {
@@ -345,6 +382,24 @@ func RuleKEmitAll(c *core.Ctx) {
 						}
 					}
 					if takesElem && callWrites(p, call, w) {
+						// a helper that only derives other things to write from the element
+						// (the opens of the valuation accounts a transaction uses) is not the
+						// write of the element
+						if h := localHelper(call); h != nil {
+							passes := false
+							for i, a := range call.Call.Args {
+								isElem := el.elem[core.Strip(a)] || el.elem[a]
+								if mi, ok := a.(*ssa.MakeInterface); ok && el.elem[mi.X] {
+									isElem = true
+								}
+								if isElem && i < len(h.Params) && (writesItsParam(h, i, 0) || alwaysWrites(p, h)) {
+									passes = true
+								}
+							}
+							if !passes {
+								continue
+							}
+						}
 						writes = append(writes, call)
 					}
 				}
@@ -479,6 +534,142 @@ func RuleKEmitAll(c *core.Ctx) {
 		}
 	}
 	c.Floor(rule, 6)
+}
+
+// localHelper: the function of the transcoder's package (a declared function
+// or a local function literal) that a call invokes, nil for anything else.
+func localHelper(call *ssa.Call) *ssa.Function {
+	var h *ssa.Function
+	if f := call.Call.StaticCallee(); f != nil {
+		h = f
+	} else if f := core.FuncValue(call.Call.Value); f != nil {
+		h = f
+	} else if ld, ok := call.Call.Value.(*ssa.UnOp); ok {
+		if al, ok := ld.X.(*ssa.Alloc); ok {
+			for _, st := range core.AllStoresToCell(al) {
+				if f := core.FuncValue(st.Val); f != nil {
+					h = f
+				}
+			}
+		}
+	}
+	if h == nil {
+		h = capturedFunc(call.Call.Value)
+	}
+	if h == nil || h.Blocks == nil || core.PkgPathOf(h) != pkgBeancount {
+		return nil
+	}
+	return h
+}
+
+// writesItsParam: h hands its parameter idx itself (not something read out of
+// it) to a call that takes a writer or a printer, or to another helper of the
+// package that does.
+func writesItsParam(h *ssa.Function, idx int, depth int) bool {
+	if idx >= len(h.Params) || depth > 3 {
+		return false
+	}
+	prm := h.Params[idx]
+	found := false
+	for _, g := range core.WithAnon(h) {
+		core.EachInstr(g, func(ins ssa.Instruction) {
+			call, ok := ins.(*ssa.Call)
+			if !ok || found {
+				return
+			}
+			for i, a := range call.Call.Args {
+				v := core.Strip(a)
+				if mi, ok := a.(*ssa.MakeInterface); ok {
+					v = core.Strip(mi.X)
+				}
+				// the parameter, also through a spill or a capture
+				isPrm := v == ssa.Value(prm)
+				if ld, ok := v.(*ssa.UnOp); ok {
+					if al, ok := ld.X.(*ssa.Alloc); ok {
+						for _, st := range core.StoresTo(al) {
+							if core.Strip(st.Val) == ssa.Value(prm) {
+								isPrm = true
+							}
+						}
+					}
+				}
+				if !isPrm {
+					continue
+				}
+				if h2 := localHelper(call); h2 != nil {
+					if writesItsParam(h2, i, depth+1) {
+						found = true
+					}
+					continue
+				}
+				// a call outside the package that also gets a writer / is a printer method
+				for _, b := range call.Call.Args {
+					t := b.Type()
+					if implementsWriter(t) {
+						found = true
+					}
+					if pt, ok := t.Underlying().(*types.Pointer); ok && isPrinterType(pt) {
+						found = true
+					}
+				}
+			}
+		})
+	}
+	return found
+}
+
+// alwaysWrites: fn calls something that takes a writer or a printer, and every
+// return that is not an error return is dominated by such a call.
+func alwaysWrites(p *core.Prog, fn *ssa.Function) bool {
+	any := false
+	var writeBlocks []*ssa.BasicBlock
+	core.EachInstr(fn, func(ins ssa.Instruction) {
+		call, ok := ins.(ssa.CallInstruction)
+		if !ok {
+			return
+		}
+		cc := call.Common()
+		vals := append([]ssa.Value{}, cc.Args...)
+		if cc.IsInvoke() {
+			vals = append(vals, cc.Value)
+		}
+		for _, a := range vals {
+			t := a.Type()
+			if mi, ok := a.(*ssa.MakeInterface); ok {
+				t = mi.X.Type()
+			}
+			if implementsWriter(t) {
+				any = true
+				writeBlocks = append(writeBlocks, ins.Block())
+			} else if pt, ok := t.Underlying().(*types.Pointer); ok && isPrinterType(pt) {
+				any = true
+				writeBlocks = append(writeBlocks, ins.Block())
+			}
+		}
+	})
+	if !any {
+		return false
+	}
+	for _, b := range fn.Blocks {
+		if _, ok := b.Instrs[len(b.Instrs)-1].(*ssa.Return); !ok {
+			continue
+		}
+		if len(b.Preds) == 1 {
+			if iff, ok := b.Preds[0].Instrs[len(b.Preds[0].Instrs)-1].(*ssa.If); ok && isErrTest(iff.Cond) && b.Preds[0].Succs[0] == b {
+				continue
+			}
+		}
+		dominated := false
+		for _, wb := range writeBlocks {
+			if wb == b || wb.Dominates(b) {
+				dominated = true
+			}
+		}
+		if !dominated {
+			return false
+		}
+	}
+	return true
 }
 
 // returnsWithoutWriting: fn has a return that is not an error return and is
@@ -682,10 +873,35 @@ func callWrites(p *core.Prog, call *ssa.Call, w *ssa.Parameter) bool {
 			}
 		}
 		if mc != nil {
-			for _, b := range mc.Bindings {
-				if derived(b) {
-					return true
+			var closureWrites func(m *ssa.MakeClosure, depth int) bool
+			closureWrites = func(m *ssa.MakeClosure, depth int) bool {
+				for _, b := range m.Bindings {
+					if derived(b) {
+						return true
+					}
+					if depth >= 2 {
+						continue
+					}
+					// a captured local function that writes (paragraph := func(d) error {…})
+					var inner *ssa.MakeClosure
+					switch y := b.(type) {
+					case *ssa.MakeClosure:
+						inner = y
+					case *ssa.Alloc:
+						for _, st := range core.AllStoresToCell(y) {
+							if m2, ok := st.Val.(*ssa.MakeClosure); ok {
+								inner = m2
+							}
+						}
+					}
+					if inner != nil && closureWrites(inner, depth+1) {
+						return true
+					}
 				}
+				return false
+			}
+			if closureWrites(mc, 0) {
+				return true
 			}
 		}
 	}
